@@ -27,3 +27,16 @@ claim("C18", "DESIGN.md 5 C18",
       "Exhaustive over a stated boundary grid of the (continuous) time domain: 5 eras (1970 .. 130 s before the NTP era end) x 8 second offsets around the 64 s wrap of the 24-bit field x a sub-second grid (26 points quick; every nanosecond of the first and last three 2^-18 s quanta and around every 1/64 s, 23k points, thorough) x 18 delays up to 64 s - 2^-18 s - 1 ns, and 16 offset magnitudes x sign x 4 sub-second additions x era. Every grid point runs the real constructors, the wire round trip and the inverse mapping and is checked against the 1 ns / 2^-18 s bounds of the property.",
       "Instants, delays and offsets between grid points are outside the bound; the grid follows the structure of the arithmetic (fraction depends on the sub-second part only; the 24-bit field on seconds mod 64 and the top 18 fraction bits).",
       "bounded exhaustive enumeration over a boundary grid (explicit choice-tree DFS on the real code)")
+
+claim("C01", "DESIGN.md 5 C01",
+      "Bounded exhaustive enumeration of rtp.Packet values built through the public API: the full product of CSRC count x extension configuration (none; one-byte 0-3 elements + the 14-element block, preset or auto-selected profile; two-byte 0-3 elements; legacy 5 profiles x 4 sizes) x payload length x padding size x fixed-field presets, plus the full product of the fixed-field alphabets over 8 layouts; every value is marshalled, its size compared with MarshalSize, unmarshalled and compared field by field (ids in order, values, payload, padding size); same for Header alone with the reported length.",
+      "Alphabets per dimension are stated in the evidence assumptions; values outside them (payload > 1200 bytes, 4-13 elements) are outside the bound.",
+      "bounded exhaustive enumeration of inputs with a round-trip oracle against the generating model (explicit choice-tree DFS on the real code)")
+claim("C04", "DESIGN.md 5 C04",
+      "For every packet of the reduced C01 space (all size-affecting dimensions) and 4 prior buffer contents, EVERY destination length from 0 to MarshalSize()+3 is tried for Packet.MarshalTo and Header.MarshalTo: short => io.ErrShortBuffer and no panic; sufficient => n == MarshalSize, bytes identical to Marshal(), bytes beyond untouched.",
+      "Packet alphabets as in C01 (reduced in the quick tier).",
+      "bounded exhaustive enumeration of (packet, destination length, prior content) (explicit choice-tree DFS on the real code)")
+claim("C20", "DESIGN.md 5 C20",
+      "For every packet of the C01 space, built through the API or decoded from its own wire image, Packet.Clone and Header.Clone are compared with the generating model, then each of 10 single mutations is applied to the original or to the clone and the other side's reported fields and Marshal() bytes must be unchanged (shared backing arrays are detected by overwriting through every exposed slice, appending within capacity, Set/Del of extensions, and overwriting the decoded-from buffer).",
+      "Packet alphabets as in C01 (reduced in the quick tier).",
+      "bounded exhaustive enumeration of (packet, mutation) histories with a differential oracle (explicit choice-tree DFS on the real code)")
